@@ -1,11 +1,14 @@
 #!/bin/bash
-# usage: tools/mutate.sh <check-id> <name> -- <shell command that mutates /repo>   (always restores /repo afterwards)
+# usage: tools/mutate.sh <check-id> <name> -- <shell command that mutates the tree at $R>
+# Works on a scratch copy of /repo (so concurrently running checks/agents are not disturbed); $R is its path.
 ID=$1; NAME=$2; shift 3
-cd /repo && git diff --quiet || { echo "/repo dirty"; exit 2; }
-bash -c "$*" || { echo "mutation command failed"; git -C /repo checkout -- .; exit 2; }
-if git -C /repo diff --quiet; then echo "[$NAME] mutation changed nothing"; exit 2; fi
-(cd /repo && GOFLAGS=-mod=mod GOPROXY=off go build ./... ) || { echo "[$NAME] does not compile"; git -C /repo checkout -- .; exit 2; }
-cd /verif && OUT=$(./check $ID 2>&1); RC=$?
-git -C /repo checkout -- .
+export R=/tmp/mut-repo-$$
+rm -rf $R; git clone -q /repo $R || exit 2
+CMD="${*//\/repo/$R}"
+bash -c "$CMD" || { echo "mutation command failed"; rm -rf $R; exit 2; }
+if git -C $R diff --quiet; then echo "[$NAME] mutation changed nothing"; rm -rf $R; exit 2; fi
+(cd $R && GOFLAGS=-mod=mod GOPROXY=off go build ./... ) || { echo "[$NAME] does not compile"; rm -rf $R; exit 2; }
+cd /verif && OUT=$(VERIF_REPO=$R ./check $ID 2>&1); RC=$?
+rm -rf $R
 V=$(echo "$OUT" | grep -c '^VIOLATION')
 echo "[$NAME] check=$ID exit=$RC violations=$V :: $(echo "$OUT" | grep '^VIOLATION' | head -1)"
